@@ -9,7 +9,7 @@ VERIF = '/verif'
 # which check (and optional --only filter) is responsible for which seed
 TARGET = {
  'REG-C09-overlap': [('C09', 'OVERLAP_w4')], 'REG-C09-gapfill': [('C09', 'GAP_w16')], 'REG-C01-reader-subbyte': [('C01', 'O2_reader_w4')], 'REG-C01-carry': [('C01', 'O1_packer_w4_2calls')],
- 'C01-m1': [('C01', None)], 'C01-m2': [('C15', 'w8'), ('C01', 'w8')],
+ 'C01-m1': [('C01', 'O3_level1')], 'C01-m2': [('C15', 'w8'), ('C01', 'w8')],
  'C08-m1': [('C08', None)], 'C08-m2': [('C08', None)], 'C08-m3': [('C08', None)],
  'C09-m1': [('C09', 'OVERLAP_w8'), ('C09', 'OVERLAP_w32')], 'C09-m2': [('C09', 'GAP_w32')],
  'C10-m1': [('C01', 'O2_reader_w32'), ('C10', 'O5')], 'C10-m2': [('C12', None)],
@@ -21,7 +21,7 @@ TARGET = {
  'C18-m1': [('C18', 'sw')], 'C18-m2': [('C18', 'hw')], 'C18-m3': [('C18', 'L7')],
  'C19-m1': [('C19', None)], 'C19-m2': [('C19', None)],
  'C20-m1': [('C20', 'ALIAS')], 'C20-m2': [('C20', 'KMM')], 'C20-m3': [('C20', 'KMM_f32')],
- 'C17-m1': [('C17', None)], 'C17-m2': [('C17', None)], 'C11-m1': [('C11', None)], 'C11-m2': [('C11', None)],
+ 'C17-m1': [('C17', None)], 'C17-m2': [('C17', None)], 'C11-m1': [('C11', 'seek')], 'C11-m2': [('C11', 'iterate')],
  'C02-m1': [('C02', None)], 'C02-m2': [('C02', 'LN')],
  'C04-m1': [('C04', 'errprop')], 'C04-m2': [('C04', 'errprop')], 'C05-m1': [('C05', None)], 'C05-m2': [('C05', None)],
 }
